@@ -285,7 +285,8 @@ def run(ctx, chk, tier="quick"):
                                 first = flow.expand(c.args[0].elts[0])
                                 ft = ast.unparse(first)
                                 zs_name = next((n_ for n_, cc in colof.items() if cc == ("zeta_interval", "start_epoch")), None) if rowb is not None else None
-                                sid_ok = zs_name is not None and ("== %s" % zs_name) in ft
+                                from ..idioms import lookup_key_is
+                                sid_ok = zs_name is not None and lookup_key_is(first, zs_name) == 0
                 else:
                     sid_ok = txt == "%s[%s][0][0]" % (series_arg, sid)
             # the value column uses the same loop position
